@@ -42,7 +42,7 @@ TRUSTED = [
 ]
 ASSUMPTIONS = [
     "a message is not itself a valid raw-DEFLATE stream (Entity.unravel guesses by trial inflation for HTTP-POST)",
-    "SOAP message text contains no carriage return (xml.etree writes it unescaped: recorded under C12) and no CDATA section holding the literal text of pack.PREFIX",
+    "SOAP message text contains no carriage return (xml.etree writes it unescaped: recorded under C12)",
     "redirect signing (SigAlg/Signature parameters) is C15's subject; URLs are built with sign=False",
 ]
 PARALLEL = False
@@ -79,6 +79,14 @@ ATTACKS = ['"><script>alert(1)</script>', "' onmouseover='x", '&amp;', '&lt;', '
            '&', '&&', '&;', '&amp;amp;', '"/><input name="SAMLResponse" value="x', '</form>', '<!--', '-->', '<![CDATA[',
            '%26', '%3D', '%', '%%', '%4', '%zz', '%41', '%e9', '%C3%A9', '%2B', '+', 'a=b', 'a=b&c=d', '&SAMLRequest=evil',
            '&RelayState=evil', '?x=1', '#frag', '?', '??', '?#', '#?', '=', '==', '&=', '=&', 'a&b=c', 'a+b c', 'é=ü']
+
+
+# sequences that are special to some templating / substitution mechanism a packer might be rewritten
+# with: re.sub replacement templates, string.Template, %-formatting, str.format, shell-like expansion
+TEMPLATE_SEQS = ['\\n', '\\t', '\\r', '\\1', '\\0', '\\g<0>', '\\g<1>', '\\g<name>', '\\\\', '\\', 'CORP\\jdoe', 'C:\\temp\\new', '\\x41', '\\u00e9',
+                 '$1', '$0', '$&', '$$', '${x}', '$x', '${', '%s', '%d', '%(x)s', '%%', '%', '%5', '{}', '{0}', '{x}', '{{', '}}', '{',
+                 '}', '{action}', '{val}', '{name}', '{0!r}', '{{x}}', '#{x}', '<%= x %>', '`x`', '$(x)']
+ATTACKS = ATTACKS + TEMPLATE_SEQS
 
 
 def gen_text(rng, maxlen=24):
@@ -173,7 +181,11 @@ XML_CONTENT = (list(string.ascii_letters + string.digits) + ['&', '<', '>', '"',
 
 
 def gen_xml_text(rng, maxlen=16):
-    return "".join(rng.choice(XML_CONTENT) for _ in range(rng.randint(0, maxlen)))
+    out = []
+    for _ in range(rng.randint(0, maxlen)):
+        # one position in twelve carries a templating-special sequence (backslash escapes, $1, %s, {0}, ...)
+        out.append(rng.choice(TEMPLATE_SEQS) if maxlen <= 64 and rng.randrange(12) == 0 else rng.choice(XML_CONTENT))
+    return "".join(out)
 
 
 def gen_tree(rng, depth=0, big=0):
@@ -272,6 +284,13 @@ def library_message(rng):
     return txt.replace("\r", ""), "{%s}%s" % (m.c_namespace, m.c_tag)
 
 
+def _no_cr(t):
+    """The same tree without carriage returns in text, tails and attribute values."""
+    tag, attrs, text, children, tail = t
+    return [tag, [[k, v.replace("\r", "")] for k, v in attrs], text.replace("\r", ""), [_no_cr(c) for c in children],
+            tail.replace("\r", "")]
+
+
 def gen_message(rng, tier, soap=False):
     """-> (text, canonical tree | None, root tag | None)"""
     c = rng.randrange(10)
@@ -283,7 +302,7 @@ def gen_message(rng, tier, soap=False):
         big = rng.choice([200, 2000, 2000, 20000, 60000]) if tier == "quick" else rng.choice([200, 2000, 20000, 60000, 250000])
     t = gen_tree(rng, 0, big)
     if soap:
-        t = json.loads(json.dumps(t).replace("\\r", ""))
+        t = _no_cr(t)
     body = render_tree(t)
     if c == 4:
         body = body.replace("><", ">\n<", 2)     # line breaks between elements change text/tail: recompute below
@@ -455,7 +474,7 @@ def gen_cases(rng, tier):
             yield {"op": "soap", "thingy": msg, "tree": tree, "tag": tag, "expected": expected, "headers": [],
                    "via": rng.choice(["pack", "apply_binding"])}
         elif c < 8 and rng.random() < 0.25:
-            # the literal text of pack.PREFIX inside a CDATA section of the message (known finding)
+            # the literal text of pack.PREFIX inside a CDATA section of the message (regression of d02e146f)
             inner = PREFIX_TEXT if rng.random() < 0.7 else "a" + PREFIX_TEXT + gen_xml_text(rng, 4).replace("]", "")
             body = '<ext:Item xmlns:ext="urn:c14:ext"><![CDATA[%s]]></ext:Item>' % inner
             decl = rng.choice(DECLS)
@@ -549,7 +568,7 @@ PREFIX_TEXT = '<?xml version="1.0" encoding="UTF-8"?>'     # the value of saml2.
 
 
 def _soap_spliced(thingy):
-    """The message as make_soap_enveloped_saml_thingy splices it, before its PREFIX removal."""
+    """The message as make_soap_enveloped_saml_thingy splices it (leading declaration stripped)."""
     if thingy[0:5].lower() == "<?xml":
         end = thingy.find("?>")
         if end != -1:
@@ -621,21 +640,19 @@ def _last(params, key):
 
 
 def _unravel(txt, binding):
-    from saml2.entity import Entity, UnravelError
+    from saml2.entity import Entity
 
-    try:
-        out = Entity.unravel(txt, binding)
-    except UnravelError:
+    ok, out = _try(lambda: Entity.unravel(txt, binding))     # legitimately raised: UnravelError
+    if not ok or out is None:
         return None
-    return hx(out if isinstance(out, bytes) else out.encode("utf-8"))
+    return hx(out if isinstance(out, bytes) else str(out).encode("utf-8"))
 
 
 def _dest_json(fn):
-    try:
-        d = fn()
-    except (KeyError, ValueError):      # unknown source id / bad type code / binascii.Error
+    ok, d = _try(fn)      # legitimately raised: KeyError (unknown source id), ValueError (type code, binascii.Error)
+    if not ok:
         return {"r": "refused"}
-    return {"r": "none"} if d is None else {"r": "dest", "loc": d}
+    return {"r": "none"} if d is None else {"r": "dest", "loc": d if isinstance(d, str) else repr(d)}
 
 
 class _Probe:
@@ -681,6 +698,15 @@ def _soap_object(spec):
     return m, headers
 
 
+def _try(fn):
+    """Run ONE call into pysaml2.  Whatever it raises is the observable "refused" (a packer or
+    unpacker that raises does not deliver); nothing of the harness's own code runs inside."""
+    try:
+        return True, fn()
+    except Exception:  # noqa: BLE001 - deliberately wide, around a single library call
+        return False, None
+
+
 def run_impl(case):
     from saml2 import BINDING_HTTP_ARTIFACT, BINDING_HTTP_POST, BINDING_HTTP_REDIRECT, BINDING_SOAP, pack
     from saml2.entity import create_artifact
@@ -712,12 +738,13 @@ def run_impl(case):
 
     if op == "post":
         typ = case["typ"]
-        try:
-            if case["via"] == "apply_binding":
-                info = _entity().apply_binding(BINDING_HTTP_POST, case["msg"], case["loc"], case["rs"], response=(typ == "SAMLResponse"))
-            else:
-                info = pack.http_form_post_message(case["msg"], case["loc"], case["rs"], typ)
-        except UnicodeDecodeError:   # a non-SAML parameter name with a non-ASCII message
+        ent = _entity()
+        if case["via"] == "apply_binding":
+            ok, info = _try(lambda: ent.apply_binding(BINDING_HTTP_POST, case["msg"], case["loc"], case["rs"],
+                                                       response=(typ == "SAMLResponse")))
+        else:
+            ok, info = _try(lambda: pack.http_form_post_message(case["msg"], case["loc"], case["rs"], typ))
+        if not ok:       # legitimately: UnicodeDecodeError for a non-SAML parameter name with a non-ASCII message
             return {"html": None}
         page = info["data"]
         p = _FormParser()
@@ -737,16 +764,14 @@ def run_impl(case):
 
     if op == "redirect":
         typ = case["typ"]
-        try:
-            if case["via"] == "apply_binding":
-                info = _entity().apply_binding(BINDING_HTTP_REDIRECT, case["msg"], case["loc"], case["rs"],
-                                               response=(typ == "SAMLResponse"), sign=False)
-            else:
-                info = pack.http_redirect_message(case["msg"], case["loc"], case["rs"], typ)
-        except Exception as e:       # pack raises a bare Exception for an unknown message type
-            if type(e) is Exception and "Unknown message type" in str(e):
-                return {"url": None}
-            raise
+        ent = _entity()
+        if case["via"] == "apply_binding":
+            ok, info = _try(lambda: ent.apply_binding(BINDING_HTTP_REDIRECT, case["msg"], case["loc"], case["rs"],
+                                                       response=(typ == "SAMLResponse"), sign=False))
+        else:
+            ok, info = _try(lambda: pack.http_redirect_message(case["msg"], case["loc"], case["rs"], typ))
+        if not ok:       # legitimately: a bare Exception for an unknown message type
+            return {"url": None}
         url = dict(info["headers"])["Location"]
         params = _params(url)
         v = _last(params, typ)
@@ -759,32 +784,37 @@ def run_impl(case):
         rsv = _last(params, "RelayState")
         return {"url": hx(u8(url)), "params": params, "unraveled": unr, "relay": hx(u8(rsv)) if rsv is not None else None}
     if op == "artifact_url":
+        ent = _entity()
         if case["via"] == "use_http_artifact":
-            info = HTTPBase.use_http_artifact(case["art"], case["loc"], case["rs"])
+            ok, info = _try(lambda: HTTPBase.use_http_artifact(case["art"], case["loc"], case["rs"]))
         else:
-            info = _entity().apply_binding(BINDING_HTTP_ARTIFACT, case["art"], case["loc"], case["rs"],
-                                           response=(case["via"] == "apply_binding_response"))
+            ok, info = _try(lambda: ent.apply_binding(BINDING_HTTP_ARTIFACT, case["art"], case["loc"], case["rs"],
+                                                       response=(case["via"] == "apply_binding_response")))
+        if not ok:
+            return {"url": None, "params": None}
         return {"url": hx(u8(info["url"])), "params": _params(info["url"])}
 
     if op == "soap":
         if case.get("as_object"):
             m, headers = _soap_object(case["as_object"])
-            data = pack.make_soap_enveloped_saml_thingy(m, headers or None)
+            ok, data = _try(lambda: pack.make_soap_enveloped_saml_thingy(m, headers or None))
+            if not ok:
+                return {"wrapped": None, "env": None, "out": {"r": "refused"}}
             env = _envelope(data)
             return {"wrapped": None, "env": env, "out": _unwrap(data, case["expected"])}
+        ent = _entity()
         if case["via"] == "apply_binding":
-            wrapped = _entity().apply_binding(BINDING_SOAP, case["thingy"], "https://idp.c14.example/soap", sign=False)["data"]
+            ok, wrapped = _try(lambda: ent.apply_binding(BINDING_SOAP, case["thingy"], "https://idp.c14.example/soap", sign=False)["data"])
         else:
-            wrapped = pack.make_soap_enveloped_saml_thingy(case["thingy"])
+            ok, wrapped = _try(lambda: pack.make_soap_enveloped_saml_thingy(case["thingy"]))
+        if not ok:       # the packer raised: nothing is delivered
+            return {"wrapped": None, "env": None, "out": None if case["tree"] is None else {"r": "refused"}}
         if case["tree"] is None:
             return {"wrapped": wrapped, "env": None, "out": None}
         if case["via"] == "unravel":
-            from saml2.entity import Entity, UnravelError
-            try:
-                out = Entity.unravel(wrapped, BINDING_SOAP, case["msgtype"])
-                out = {"r": "empty"} if out == "" else {"r": "elem", "e": cstr(canon_el(ET.fromstring(out)))}
-            except UnravelError:
-                out = {"r": "refused"}
+            from saml2.entity import Entity
+            ok, out = _try(lambda: Entity.unravel(wrapped, BINDING_SOAP, case["msgtype"]))     # legitimately: UnravelError
+            out = {"r": "refused"} if not ok else {"r": "empty"} if out == "" else {"r": "elem", "e": _canon_bytes(out)}
         else:
             out = _unwrap(wrapped, case["expected"])
         return {"wrapped": wrapped, "env": _envelope(wrapped), "out": out}
@@ -793,9 +823,9 @@ def run_impl(case):
         return {"out": _unwrap(case["envelope"], case["expected"])}
 
     if op == "artifact":
-        try:
-            art = create_artifact(case["entity_id"], bytes.fromhex(case["handle"]), case["idx"])
-        except ValueError:
+        handle = bytes.fromhex(case["handle"])
+        ok, art = _try(lambda: create_artifact(case["entity_id"], handle, case["idx"]))    # legitimately: ValueError (index range)
+        if not ok or not isinstance(art, str):
             return {"art": None, "dest": None}
         sp = _sp_with(case["ents"])
         return {"art": art, "dest": _dest_json(lambda: sp.artifact2destination(art, "idpsso"))}
@@ -839,20 +869,24 @@ def _envelope(data):
     return {"tag_ok": root.tag == "{%s}Envelope" % SOAPENV, "parts": parts}
 
 
+def _canon_bytes(out):
+    """Canonical tree of what an unwrapper returned (text that is not XML stays visible as such)."""
+    try:
+        return cstr(canon_el(ET.fromstring(out)))
+    except ET.ParseError:
+        return "<unparseable>"
+
+
 def _unwrap(wrapped, expected):
     from saml2 import soap
 
-    try:
-        out = soap.parse_soap_enveloped_saml_thingy(wrapped, expected)
-    except (soap.WrongMessageType, ET.ParseError, ValueError):
+    # legitimately raised: WrongMessageType, ParseError, ValueError (root tag), bare Exception (children / no items)
+    ok, out = _try(lambda: soap.parse_soap_enveloped_saml_thingy(wrapped, expected))
+    if not ok:
         return {"r": "refused"}
-    except Exception as e:
-        if type(e) is Exception:     # "Expected a single child element" / "No items in envelope."
-            return {"r": "refused"}
-        raise
     if out == "":
         return {"r": "empty"}
-    return {"r": "elem", "e": cstr(canon_el(ET.fromstring(out)))}
+    return {"r": "elem", "e": _canon_bytes(out)}
 
 
 def compare(case, impl, model):
@@ -881,8 +915,8 @@ def finding_key(case, impl, lean):
         if "?" in base and not "".join(ch for ch in own if ch not in "\t\r\n"):
             return "C14/redirect-destination-empty-query"
     if case["op"] == "soap" and not case.get("as_object") and case.get("tree") is not None:
-        from saml2 import pack
-        if pack.PREFIX and pack.PREFIX in _soap_spliced(case["thingy"]):
+        # repaired by d02e146f: named so that a regression surfaces under its old name (not a known finding)
+        if PREFIX_TEXT in _soap_spliced(case["thingy"]):
             return "C14/soap-prefix-text-removed"
     return None
 
